@@ -153,6 +153,7 @@ def run(ctx):
         ctx.compare("decode-model-vs-reference", meta, exp, model)
     nil_items(ctx)
     simple_content(ctx)
+    same_name_contexts(ctx)
     if metas:
         ctx.sample({"input": metas[0][0], "decoded": metas[0][1]})
 
@@ -193,6 +194,73 @@ def nil_items(ctx):
             if k == "a":
                 model = [None if x is None else int(x["text"]) for x in v["list"]]
         ctx.compare("accumulate-model-vs-suds", meta, got, model)
+
+
+CTX_TYPES = ["int", "string", "boolean", "decimal", "long"]
+CTX_LEX = ["0042", "1", "0", "7.50", "true", "-3"]
+
+
+def ctx_value(t, lex):
+    """What a leaf of XSD type t with lexical form lex decodes to (None: not a valid lexical form of t)."""
+    import decimal
+    if t == "string":
+        return lex
+    if t in ("int", "long"):
+        return int(lex) if lex.lstrip("-").isdigit() else None
+    if t == "boolean":
+        return {"1": True, "true": True, "0": False, "false": False}.get(lex)
+    if t == "decimal":
+        try:
+            return decimal.Decimal(lex)
+        except Exception:
+            return None
+    return None
+
+
+def same_name_contexts(ctx):
+    """Separate stream: local elements (with inline anonymous types) and attributes that share a NAME but sit in
+    different parents with different types - every value is decoded by the declaration of its own place."""
+    rng = ctx.rng
+    for _ in range(ctx.pick(40, 600)):
+        groups = rng.sample(["orders", "customers", "parts", "notes"], rng.randint(2, 4))
+        decl, body, expected = [], [], {"__class__": "R"}
+        spec = []
+        for g in groups:
+            ta, tv = rng.choice(CTX_TYPES), rng.choice(CTX_TYPES)
+            multi = rng.random() < 0.6
+            decl.append('<xsd:element name="%s"><xsd:complexType><xsd:sequence><xsd:element name="item" %s>'
+                        '<xsd:complexType><xsd:sequence><xsd:element name="v" type="xsd:%s"/></xsd:sequence>'
+                        '<xsd:attribute name="id" type="xsd:%s"/></xsd:complexType></xsd:element></xsd:sequence>'
+                        '<xsd:attribute name="id" type="xsd:%s"/></xsd:complexType></xsd:element>'
+                        % (g, 'maxOccurs="unbounded"' if multi else "", tv, ta, tv))
+            items, eitems = [], []
+            for _i in range(rng.randint(1, 3) if multi else 1):
+                la = rng.choice([l for l in CTX_LEX if ctx_value(ta, l) is not None])
+                lv = rng.choice([l for l in CTX_LEX if ctx_value(tv, l) is not None])
+                items.append('<item id="%s"><v>%s</v></item>' % (la, lv))
+                eitems.append({"__class__": "item", "_id": ctx_value(ta, la), "v": ctx_value(tv, lv)})
+            lg = rng.choice([l for l in CTX_LEX if ctx_value(tv, l) is not None])
+            body.append('<%s id="%s">%s</%s>' % (g, lg, "".join(items), g))
+            expected[g] = {"__class__": g, "_id": ctx_value(tv, lg), "item": eitems if multi else eitems[0]}
+            spec.append([g, ta, tv, multi])
+        schema = ('<xsd:element name="f"><xsd:complexType><xsd:sequence/></xsd:complexType></xsd:element>'
+                  '<xsd:complexType name="R"><xsd:sequence>%s</xsd:sequence></xsd:complexType>'
+                  '<xsd:element name="fResponse"><xsd:complexType><xsd:sequence><xsd:element name="r" type="x:R"/>'
+                  '</xsd:sequence></xsd:complexType></xsd:element>' % "".join(decl))
+        data = ('<e:Envelope xmlns:e="%s"><e:Body><fResponse xmlns="%s"><r>%s</r></fResponse></e:Body></e:Envelope>'
+                % (xmlread.ENV11, wsdlkit.TNS, "".join(body))).encode()
+        meta = {"stream": "same-name-contexts", "groups": spec, "reply": data.decode()}
+        ctx.case(common.canon(meta), True)
+        ctx.dist["same-name-contexts:groups=%d" % len(groups)] += 1
+        try:
+            client = wsdlkit.client(wsdlkit.wsdl_doc(schema, "f", "fResponse"))
+            got = K.normal(client.service.f(__inject={"reply": data}))
+        except Exception as e:
+            ctx.fail("decoding a schema-valid reply raised", meta, "%s: %s" % (type(e).__name__, e), repr(expected)[:1500])
+            continue
+        if not K.same_value(got, expected):
+            ctx.fail("a value is not decoded by the declaration of its own place (same-named elements / attributes "
+                     "with different types)", meta, repr(got)[:1500], repr(expected)[:1500])
 
 
 def widen(ctx):
